@@ -70,17 +70,19 @@ class SimpleCache(BaseCache):
     def __is_cached(
         self,
         input_data: StrKeyMapping,
+        exactly: bool = False,
     ) -> bool:
         """Check if an input data is cached.
 
         Args:
             input_data: The input data to be verified.
+            exactly: Whether to ignore the tolerance.
 
         Returns:
             Whether the input data is cached.
         """
         return len(self.__inputs) != 0 and self.compare_dict_of_arrays(
-            input_data, self.__inputs, self._tolerance
+            input_data, self.__inputs, 0.0 if exactly else self._tolerance
         )
 
     def cache_outputs(  # noqa:D102
@@ -88,7 +90,10 @@ class SimpleCache(BaseCache):
         input_data: StrKeyMapping,
         output_data: StrKeyMapping,
     ) -> None:
-        if self.__is_cached(input_data):
+        # The entry is completed only if it is the entry of these very input data;
+        # within the tolerance is not enough:
+        # the entry would mix the data of different input data.
+        if self.__is_cached(input_data, exactly=True):
             if not self.__outputs:
                 self.__outputs = deepcopy_dict_of_arrays(output_data)
             return
@@ -113,7 +118,7 @@ class SimpleCache(BaseCache):
         input_data: StrKeyMapping,
         jacobian_data: JacobianData,
     ) -> None:
-        if self.__is_cached(input_data):
+        if self.__is_cached(input_data, exactly=True):
             if not self.__jacobian:
                 self.__jacobian = jacobian_data
             return
